@@ -923,6 +923,9 @@ class Interp:
 
     def setattr(self, obj, name, val):
         if isinstance(obj, PObj):
+            hook = self.ex.setattr_hooks.get(obj.clsname())
+            if hook is not None and hook(self, obj, name, val):
+                return
             if name == "__dict__":
                 if not isinstance(val, dict):
                     raise Undecided("__dict__ assigned a non-dict")
@@ -1813,6 +1816,7 @@ class Explorer:
         self.global_overrides = {}
         self.constructors = {}
         self.truthy_hooks = {}
+        self.setattr_hooks = {}
         self.len_hooks = {}
         self.eq_hooks = {}
         self.order_hooks = {}
